@@ -151,6 +151,21 @@ Theorem login_reply_installs_granted_share : forall s id m, inproc s = false -> 
     built (with_logins (so s) m) id s' /\ forall k x n, ~ is_live (get_alloc s' k) x n.
 Proof. exact login_reply_installs_granted_share_proof. Qed.
 
+(* the OSC reply path: the message ['/done', '/notify', id, m, ...] reaching the 'done' responder while the watcher is booting
+   or registering IS the login "client id of m" (so login_reply_installs_granted_share applies to it); with an id only
+   (supernova) the count is kept; a reply without id, a reply in any other state, and '/fail' change nothing *)
+Theorem notify_done_reply_is_login : forall gl s id m rest,
+  sstep gl s (SNotifyDone true (id :: m :: rest)) = sstep gl s (SLogin id (Some m)).
+Proof. exact notify_reply_is_login. Qed.
+
+Theorem notify_done_reply_without_count : forall gl s id, sstep gl s (SNotifyDone true [id]) = sstep gl s (SLogin id None).
+Proof. exact notify_reply_without_count. Qed.
+
+Theorem notify_reply_that_is_not_a_login_changes_nothing : forall gl s reply,
+  sstep gl s (SNotifyDone false reply) = SOk (s, None) /\ sstep gl s (SNotifyDone true []) = SOk (s, None) /\
+  sstep gl s SNotifyFail = SOk (s, None).
+Proof. exact notify_reply_not_a_login. Qed.
+
 (* before any reply the two guards are the same test, so everything above holds for the snapshot's _set_client_id offline ... *)
 Theorem guards_agree_offline : forall s v, sw_max s = None -> set_client_id true s v = set_client_id false s v.
 Proof. exact guards_agree_offline. Qed.
@@ -272,10 +287,10 @@ Example server_options_example :
   alloc_args example_opts KBuffer 1 = (8, 2, 8) /\
   match new_allocators example_opts None false 2 with
   | SOk s0 => match srun false s0 [SAlloc KAudio 3 0; SAlloc KBuffer 1 0; SNode; SSetClient 7; SFree KAudio 37; SSetClient 1; SAlloc KAudio 3 0;
-                                  SLogin 5 (Some 8); SAlloc KControl 2 0; SAlloc KAudio 1 0] with
+                                  SNotifyDone true [5; 8]; SAlloc KControl 2 0; SAlloc KAudio 1 0; SNotifyFail; SNotifyDone false [1; 2]; SNotifyDone true []] with
               | SOk (s, outs) => (outs, cid s, sw_max s)
               | SRaise _ => ([], -1, None) end
-  | SRaise _ => ([], -2, None) end = ([Some 37; Some 18; Some 134218728; None; None; None; Some 21; None; Some 25; Some 45], 5, Some 8).
+  | SRaise _ => ([], -2, None) end = ([Some 37; Some 18; Some 134218728; None; None; None; Some 21; None; Some 25; Some 45; None; None; None], 5, Some 8).
 Proof. vm_compute. repeat split; reflexivity. Qed.
 
 Example wf_example_opts : wf_opts example_opts.
